@@ -111,6 +111,9 @@ func (h *dbHook) LockWait(connID int, wake <-chan struct{}, timeout time.Duratio
 }
 
 func (h *dbHook) Logf(format string, a ...any) uint64 { return h.sim.Logf(format, a...) }
+func (h *dbHook) LogfQuiet(format string, a ...any) uint64 {
+	return h.sim.LogfQuiet(format, a...)
+}
 
 // ATCfg is the generated AT / undo / async-worker configuration of a run.
 type ATCfg struct {
